@@ -399,6 +399,12 @@ func runEndpointsHeld(c *mon.Case, sp spec) {
 	const reconn = 3 * time.Millisecond
 	s.SetOption(mangos.OptionReconnectTime, reconn)
 	s.SetOption(mangos.OptionMaxReconnectTime, reconn)
+	if sp.RT == "sock0" {
+		if err := s.SetOption(mangos.OptionReconnectTime, time.Duration(0)); err != nil {
+			c.Violate("life/reconnect-time-0-refused", "SetOption(RECONNECT-TIME, 0) on the socket: %v", err)
+			return
+		}
+	}
 	if sp.Protos[0] == "req" {
 		s.SetOption(mangos.OptionRetryTime, time.Hour)
 	}
@@ -538,6 +544,9 @@ func runEndpointsHeld(c *mon.Case, sp spec) {
 				_, ccfg := hx.TLSConfigs()
 				do[mangos.OptionTLSConfig] = ccfg
 			}
+			if sp.RT == "dialer0" {
+				do[mangos.OptionReconnectTime] = time.Duration(0)
+			}
 			d, err := s.NewDialer(hl.url, do)
 			if err != nil {
 				c.Inconclusive("setup: NewDialer(%s): %v", hl.url, err)
@@ -631,6 +640,9 @@ func runEndpointsHeld(c *mon.Case, sp spec) {
 					return
 				}
 				c.Count("endpoint_redials_after_peer_drop", 1)
+				if sp.RT != "" {
+					c.Count("redials_after_pipe_loss_with_reconnect_time_0", 1)
+				}
 			} else if !connect(e, fmt.Sprintf("round %d: new client", round)) {
 				return
 			}
@@ -652,7 +664,7 @@ func runEndpointsHeld(c *mon.Case, sp spec) {
 	s.Close()
 	m.final(true)
 	c.Nontrivial()
-	c.Sig("endpoints|held|%s|%s|%s|%d|%d|%v|%s", tr, side, sp.Protos[0], K, sp.Conns, asynch, trace)
+	c.Sig("endpoints|held|%s|%s|%s|%d|%d|%v|%s", tr, side, sp.Protos[0], K, sp.Conns, asynch, trace+sp.RT)
 }
 
 // ---------------------------------------------------------------------------
